@@ -16,6 +16,8 @@ from .common import BUILD, MOCK, NCPU, MachineryError, scratch
 
 CXX = os.environ.get("VERIF_CXX", "g++")
 BASE_FLAGS = ["-std=gnu++17", "-O0", "-w", "-fpermissive", "-I", str(MOCK)]
+if os.environ.get("VERIF_STRICT_CXX") == "1":       # experiment: without the -fpermissive the Arduino build system passes
+    BASE_FLAGS.remove("-fpermissive")
 SAN_FLAGS = ["-fsanitize=address,undefined", "-fno-sanitize-recover=all", "-fno-omit-frame-pointer", "-g"]
 
 
@@ -83,13 +85,15 @@ def parse_events(text: str) -> list:
 
 
 def compile_run(cpp: str, passes: int = 3, inputs: str = "", san: bool = False, syntax_only: bool = False,
-                run_timeout: int = 30, keep: bool = False) -> dict:
+                run_timeout: int = 30, keep: bool = False, strict: bool = False) -> dict:
     """Compile one sketch and run it. Returns {"compile": "ok"|"fail", "stderr":..., "events": [...], "rc":.., "memerr":..}"""
     rt = ensure_runtime(san)
     d = Path(tempfile.mkdtemp(prefix="fw-", dir=str(scratch())))
     try:
         (d / "sketch.cpp").write_text(cpp)
         flags = BASE_FLAGS + (SAN_FLAGS if san else [])
+        if strict:          # standard C++: without the -fpermissive that the Arduino build system passes (C06's bar)
+            flags = [f for f in flags if f != "-fpermissive"]
         if syntax_only:
             p = subprocess.run([CXX, *flags, "-fsyntax-only", str(d / "sketch.cpp")], capture_output=True, text=True)
             return {"compile": "ok" if p.returncode == 0 else "fail", "stderr": p.stderr[-4000:]}
@@ -135,7 +139,7 @@ def run_script(job: dict) -> dict:
     if job.get("keep_cpp"):
         out["cpp"] = t["cpp"]
     out.update(compile_run(t["cpp"], job.get("passes", 3), job.get("inputs", ""), job.get("san", False),
-                           job.get("syntax_only", False)))
+                           job.get("syntax_only", False), strict=job.get("strict", False)))
     return out
 
 
